@@ -290,6 +290,41 @@ Definition valid_name (r : rctx) (s : bstring) : bool :=
       negb (r_ped r && (r_std r <? 6) && bstring_eqb s (B"FILEFRAM"))
   end.
 
+(* Barth-style metafield names parent/subfield (_GD_CheckParent, Standards
+   Version >= 7): the first slash after the first character splits the name.
+   That the parent exists in the same fragment is context and not modelled. *)
+Fixpoint split_first_slash (s : bstring) : option (bstring * bstring) :=
+  match s with
+  | [] => None
+  | c :: t => if c =? 47 then Some ([], t)
+              else match split_first_slash t with Some (a, b) => Some (c :: a, b) | None => None end
+  end.
+Definition split_meta (r : rctx) (name : bstring) : option (bstring * bstring) :=
+  if pvers_ge r 7 then
+    match name with
+    | c :: t => match split_first_slash t with Some (a, b) => Some (c :: a, b) | None => None end
+    | [] => None
+    end
+  else None.
+Definition is_meta (r : rctx) (name : bstring) : bool :=
+  match split_meta r name with Some _ => true | None => false end.
+
+(* the subfield name is validated like a name, without the INDEX / FILEFRAM test *)
+Definition valid_subname (r : rctx) (s : bstring) : bool :=
+  let len := Z.of_nat (List.length s) in
+  match s with
+  | [] => false
+  | _ =>
+      negb (r_ped r && (((50 <? len) && (r_std r <? 5)) || ((16 <? len) && (r_std r <? 3)))) &&
+      name_chars_ok r false s && negb (reserved_name r s)
+  end.
+
+Definition valid_field (r : rctx) (name : bstring) : bool :=
+  match split_meta r name with
+  | Some (_, sub) => valid_subname r sub
+  | None => valid_name r name
+  end.
+
 (* _GD_RawType *)
 Definition legacy_type (c : byte) : option gdt :=
   if c =? 99 then Some T_U8 else if c =? 117 then Some T_U16 else if c =? 115 then Some T_I16
@@ -424,9 +459,10 @@ Definition lit_lt {A} (s : sval A) (f : A -> bool) : bool := match s with SLit v
 Definition parse_spec (r : rctx) (toks : list bstring) : option entry :=
   match toks with
   | name :: ty :: args =>
-      if negb (valid_name r name) then None else
+      if negb (valid_field r name) then None else
       let n_cols := Z.of_nat (List.length toks) in
       if bstring_eqb ty (B"RAW") then
+        if is_meta r name then None else           (* META RAW fields are prohibited *)
         match args with
         | t :: s :: _ =>
             match raw_type r t, set_unsigned r 32 s with
